@@ -3,7 +3,7 @@
   policy that never lowers a fuel.
 
   * Loops whose adequacy holds in every state (`splitOn`, `natDigitsF`, `digitsAux`, `bodyMore`,
-    `dblinkMore`, `taxonMore`, `stripCont` with a non-empty prefix, `literalMore`, the ORIGIN
+    `dblinkMore`, `taxonMore`, `literalMore`, the ORIGIN
     counters): the `…X` parser EQUALS the model parser as a term.
   * Loops whose adequacy needs a sorted state (`refSubfields`, `qualifiers`, `tableMore`,
     `ParseLocation`, `recordLoop`): equality of the runs from every sorted state, carried through
@@ -248,13 +248,8 @@ theorem refSubfieldsX_eq (d : Nat) (hd : 1 ≤ d) : ∀ k st r,
     simp only [refSubfieldsX_eq d hd k]
     rfl
 
-/-! ### qualifier values: equal as terms (non-empty continuation prefix) -/
-
-theorem quotedValueX_eq (pre : Bytes) (hpre : pre ≠ []) : quotedValueX g pre = quotedValue pre := by
-  unfold quotedValueX quotedValue
-  simp only [fun (t : Bytes) => stripCont_fuel pre hpre (g.strip t.length) t.length t (hg.strip _)
-    (Nat.le_refl _)]
-  all_goals rfl
+/-! ### qualifier values: equal as terms (`quotedValue` carries no fuel since 2612fae: the loop over
+the token is a counted loop, for the empty continuation prefix too) -/
 
 theorem literalValueX_eq (pre : Bytes) : literalValueX g pre = literalValue pre := by
   apply P.ext'; intro s
@@ -290,18 +285,18 @@ theorem literalValueX_eq (pre : Bytes) : literalValueX g pre = literalValue pre 
     rw [run_bind, run_bind, run_fail]
   · exact tail _
 
-theorem qualifierX_eq (pre : Bytes) (hpre : pre ≠ []) (reg : Registry) :
+theorem qualifierX_eq (pre : Bytes) (reg : Registry) :
     qualifierX g pre reg = qualifier pre reg := by
   unfold qualifierX qualifier
-  rw [quotedValueX_eq g hg pre hpre, literalValueX_eq g hg pre]
+  rw [literalValueX_eq g hg pre]
   all_goals rfl
 
-theorem qualifiersX_eq (pre : Bytes) (hpre : pre ≠ []) : ∀ k reg acc,
+theorem qualifiersX_eq (pre : Bytes) : ∀ k reg acc,
     qualifiersX g pre k reg acc = qualifiers pre k reg acc
   | 0, _, _ => by rw [qualifiersX, qualifiers]
   | k + 1, reg, acc => by
-    rw [qualifiersX, qualifiers, qualifierX_eq g hg pre hpre]
-    simp only [qualifiersX_eq pre hpre k]
+    rw [qualifiersX, qualifiers, qualifierX_eq g hg pre]
+    simp only [qualifiersX_eq pre k]
     rfl
 
 /-! ### the ORIGIN reader: equal as terms -/
@@ -522,14 +517,14 @@ theorem sp_ne_nil (d : Nat) (hd : 1 ≤ d) : sp d ≠ [] := by
 
 /-- the qualifier loop as the table reader calls it: `…X` loop at the `…X` fuel = model loop at the
 model fuel -/
-theorem qualifiersX_run (depth : Nat) (hd : 1 ≤ depth) (reg : Registry) (s : PS)
+theorem qualifiersX_run (depth : Nat) (reg : Registry) (s : PS)
     (hs : Sorted s.rest.length s.stk) :
     (qualifiersX g (sp depth) (g.quals (s.rest.length + 1)) reg []).run' s =
       (qualifiers (sp depth) (s.rest.length + 1) reg []).run' s := by
-  rw [qualifiersX_eq g hg _ (sp_ne_nil depth hd)]
+  rw [qualifiersX_eq g hg _]
   exact qualifiers_fuel _ _ _ _ _ s hs (lt_of_ge hg.quals _) (Nat.lt_succ_self _)
 
-theorem tableMoreX_run (pre depth : Nat) (hd : 1 ≤ depth) : ∀ k reg acc (s : PS),
+theorem tableMoreX_run (pre depth : Nat) : ∀ k reg acc (s : PS),
     Sorted s.rest.length s.stk →
     (tableMoreX g pre depth k reg acc).run' s = (tableMore pre depth k reg acc).run' s
   | 0, _, _, _, _ => by rw [tableMoreX, tableMore]
@@ -542,33 +537,26 @@ theorem tableMoreX_run (pre depth : Nat) (hd : 1 ≤ depth) : ∀ k reg acc (s :
     · dsimp only
       rw [run_bind, run_bind, run_getS]
       dsimp only
-      refine run_bind_congr2 (qualifiersX_run g hg depth hd reg s1 hs1) (fun x s2 h2 => ?_)
+      refine run_bind_congr2 (qualifiersX_run g hg depth reg s1 hs1) (fun x s2 h2 => ?_)
       have hs2 := (qualifiers_safeW _ _ _ _).keepS _ _ _ hs1 h2
       obtain ⟨qs, reg'⟩ := x
-      exact tableMoreX_run pre depth hd k reg' _ s2 hs2
+      exact tableMoreX_run pre depth k reg' _ s2 hs2
 
 theorem tableX_run (reg : Registry) (s : PS) (hs : Sorted s.rest.length s.stk) :
     (tableX g reg).run' s = (table reg).run' s := by
   unfold tableX table
   refine run_bind_congr2 (firstKeylineX_run g hg s hs) (fun v s1 h1 => ?_)
   have hs1 := firstKeyline_safeW.keepS _ _ _ hs h1
-  have hkey := firstKeyline_key s
-  unfold WP at hkey
-  rw [h1] at hkey
-  have hk := hkey v rfl
   obtain ⟨pre, key, pst, l⟩ := v
-  dsimp only at hk ⊢
-  have hd : 1 ≤ pre + key.length + pst := by
-    have : 0 < key.length := List.length_pos_iff.mpr hk
-    omega
+  dsimp only
   rw [run_bind, run_bind, run_getS]
   dsimp only
-  refine run_bind_congr2 (qualifiersX_run g hg _ hd reg s1 hs1) (fun x s2 h2 => ?_)
+  refine run_bind_congr2 (qualifiersX_run g hg _ reg s1 hs1) (fun x s2 h2 => ?_)
   have hs2 := (qualifiers_safeW _ _ _ _).keepS _ _ _ hs1 h2
   have hle := ((qualifiers_safeW _ _ _ _).run hs1 h2).1
   obtain ⟨qs, reg'⟩ := x
   dsimp only
-  rw [tableMoreX_run g hg pre _ hd _ _ _ s2 hs2]
+  rw [tableMoreX_run g hg pre _ _ _ _ s2 hs2]
   exact tableMore_fuel _ _ _ _ _ _ s2 hs2
     (by have := lt_of_ge hg.table s1.rest.length; omega) (by omega)
 
